@@ -85,6 +85,7 @@ def joint_string(slots):
 def run(ctx):
     feat = C.draw_features(ctx)
     feat["max_params"] = 2
+    feat["agentless_action"] = ctx.s("cfg").draw(3) == 0
     nag = 1 + ctx.s("cfg").draw(4)
     W = C.World(ctx, feat, multi_agent=True, agents=nag)
     ops = ctx.s("ops")
@@ -199,6 +200,36 @@ def run(ctx):
         threaded(ctx, W, S, members, agents, d, p, s0, ops)
     # ---- inapplicable member injected
     inject(ctx, W, S, members, agents, d, p, s0, ops)
+    # ---- a member without any argument (an action of the domain that has no parameters) in an idle agent's slot: it is
+    # a member like any other - checked for applicability, applied, exported
+    agentless = [a for a, v in W.D["actions"].items() if not v["params"]]
+    idle = [i for i, ag in enumerate(agents) if ag not in {agent_of(m, agents) for m in members}]
+    if agentless and idle:
+        c0 = (agentless[0], [])
+        cand = members + [c0]
+        try:
+            ok0 = interp.applicable(S, W.action(c0[0]), [], W.D, W.objs)
+            ok0 = ok0 and interp.serialisable(S, [(W.action(a), args) for a, args in cand], W.D, W.objs)[0]
+        except (interp.Inconsistent, interp.Undefined):
+            ok0 = False
+        if ok0:
+            want0 = interp.serialisable(S, [(W.action(a), args) for a, args in cand], W.D, W.objs)[1]
+            slots = [None] * len(agents)
+            for m in members:
+                slots[agents.index(agent_of(m, agents))] = m
+            slots[idle[ops.draw(len(idle))]] = c0
+            js0 = joint_string(slots)
+            try:
+                t0 = exporter.create_multi_agent_triplet(s0, js0, p.objects)
+            except Exception as e:
+                raise Violation("C16/joint-action-raised", "create_multi_agent_triplet", f"{js0}: {type(e).__name__}: {e}")
+            got0 = C.abs_state(t0.next_state, "create_multi_agent_triplet", ID)
+            if not interp.state_eq(got0, want0):
+                raise Violation("C16/joint-result-differs", "create_multi_agent_triplet",
+                                f"{js0} (a member without arguments): {interp.state_diff(got0, want0)}", {"agentless": True})
+            ctx.probes["agentless_member_checked"] += 1
+            if not interp.state_eq(want0, want):
+                ctx.probes["agentless_member_changes_state"] += 1
     # ---- history: the problem gains an object between two calls on the same exporter (same objects dict, grown in
     # place); quantified effects and conditions of the members range over the objects as they are NOW
     if members and ops.chance(1, 3):
